@@ -342,16 +342,29 @@ func ApplyStep(w *World, lg zerolog.Logger, m RefLogger, s Step) (zerolog.Logger
 	return lg, m
 }
 
-// ctxFieldsExp: expectation for fields added through a Context (Stack() changes the logger's flag).
+// ctxFieldsExp: expectation for fields added through a Context (Stack() changes the logger's flag;
+// Timestamp() and Caller() on a Context register hooks, they are not context fields).
 func ctxFieldsExp(fs []Field, m *RefLogger) []KV {
-	pre := fs
+	var pre []Field
 	if m.Stack {
-		pre = append([]Field{{M: "Stack"}}, fs...)
+		pre = append(pre, Field{M: "Stack"})
 	}
 	for _, f := range fs {
-		if f.M == "Stack" {
+		switch f.M {
+		case "Stack":
 			m.Stack = true
+		case "Timestamp":
+			m.Hooks = append(m.Hooks, RefHook{Kind: "timestamp"})
+			continue
+		case "Caller":
+			m.Hooks = append(m.Hooks, RefHook{Kind: "caller"})
+			continue
+		case "Ctx":
+			if c, ok := f.Val.(context.Context); ok {
+				m.GoCtx = CtxID(c)
+			}
 		}
+		pre = append(pre, f)
 	}
 	return FieldsExp(pre)
 }
